@@ -10,7 +10,7 @@ nil/fresh dst.  `IpOk sel m r`: result content `sel` (even in order), argument a
 of the original, result = front portion of the argument.
 All theorems are for arbitrary element values, lengths, duplicates and `Int` arguments.
 -/
-import Golib.Proof.C14FirstOcc
+import Golib.Proof.C14Arena
 
 namespace Golib.C14
 
@@ -141,6 +141,32 @@ theorem c14_index (s : List Int) (fn : Int → Bool) (v : Int) :
 theorem c14_equal (s1 s2 : List Int) : equal s1 s2 = some (decide (s1 = s2)) :=
   equal_spec s1 s2
 
+/-- **InPlace variants on ONE arena, every layout.**  `s1` and `s2` are windows
+`arena[off:off+len]` of the same memory; NOTHING is assumed about their relative position
+(`s2` disjoint from, equal to, a partial window of, or straddling `s1`).  Because the code
+builds its membership map from `s2` BEFORE the first swap (slices.go:38-41, 80-83), the result
+is the selection of the ORIGINAL `s1` by membership in the ORIGINAL `s2`, in order; the cells
+of `s1` end as a permutation of what they were and every other arena cell is unchanged (so
+the part of `s2` outside `s1` keeps its values, the part inside is permuted with `s1`).
+An implementation that consults the live `s2` during the loop does not satisfy this. -/
+theorem c14_inplace_arena (A : List Int) (s1 s2 : Win) (p : Int → Bool) (key : Int → Int)
+    (h : s1.off + s1.len ≤ A.length) :
+    (∃ A' res, diffInPlaceA A s1 s2 = some (A', res) ∧
+      ArenaIpOk ((s1.read A).filter fun v => !(s2.read A).contains v) A s1 A' res) ∧
+    (∃ A' res, intersectInPlaceA A s1 s2 = some (A', res) ∧
+      ArenaIpOk ((s1.read A).filter fun v => (s2.read A).contains v) A s1 A' res) ∧
+    (∃ A' res, uniqueByKeyInPlaceA key A s1 = some (A', res) ∧
+      ArenaIpOk (firstOcc key [] (s1.read A)) A s1 A' res) ∧
+    (∃ A' res, filterInPlaceA p A s1 = some (A', res) ∧ ArenaIpOk ((s1.read A).filter p) A s1 A' res) :=
+  ⟨diffInPlaceA_spec A s1 s2 h, intersectInPlaceA_spec A s1 s2 h, uniqueByKeyInPlaceA_spec key A s1 h,
+   filterInPlaceA_spec p A s1 h⟩
+
+/-- `Copy` of a window WITH spare capacity: the result is memory of its own (or nil) and no
+arena cell — in particular no cell of the source's spare capacity — is written. -/
+theorem c14_copy_arena (A : List Int) (s : Win) (a len : Int) :
+    ∃ res, copyA A s a len = some (A, res) ∧ ∃ xs n, res = .fresh xs n :=
+  copyA_spec A s a len
+
 /-- **FlexSlice refines a plain list**: every sequence of Append/Prepend/Get/Remove/Pop/
 Shift/SubSlice, from every state with any amount of spare capacity (`len ≤ cap`), under
 every growth function `g` of `append`: no panic, the same answers and the same final
@@ -167,6 +193,9 @@ example : (⟨.in1, [], 1, false⟩ : Out).loc = .in1 ∧ (1 : Nat) ≤ 3 ∧ 3 
 example : chunk 5 2 = some (some [(0, 2), (2, 2), (4, 1)]) := by decide
 example : subSlice 3 (-1) 9 = some (.view 0 3) ∧ subSlice 3 2 1 = some .nil ∧ copy [1, 2, 3] 1 (-1) = some (.fresh [2, 3]) := by
   decide
+/-- the layout of seeded change C14-E: `s2 = s1[1:2]` inside `s1 = [3 7 5 7]`: both 7s are kept -/
+example : intersectInPlaceA [3, 7, 5, 7] ⟨0, 4, 4⟩ ⟨1, 1, 1⟩ = some ([7, 7, 5, 3], .win 0 2) := by decide
+example : diffInPlaceA [9, 3, 7, 5, 7, 9] ⟨1, 4, 4⟩ ⟨2, 2, 2⟩ = some ([9, 3, 7, 5, 7, 9], .win 1 1) := by decide
 /-- a FlexSlice history crossing growth (cap 2 → 4 → 9 → 18), an in-capacity Prepend and a shrink (18 → 8) -/
 example : (flexRun goGrow (mkFlex [] 2)
     [.append [1, 2, 3], .prepend [4], .prepend [5, 6, 7, 8, 9], .append [10], .shift, .shift, .shift, .shift, .shift,
